@@ -486,6 +486,22 @@ def dict_property(draw, faults):
 
 
 @st.composite
+def _odd_children(draw, entries, faults):
+    """A child list as a hand-written JSON/YAML file may have it: mostly a list of mappings,
+    sometimes empty content (None), a scalar, a mapping, or a list with a non-mapping entry."""
+    kids = draw(entries)
+    roll = draw(st.integers(0, 11))
+    if roll == 0:
+        faults.append("children_not_list")
+        return draw(st.sampled_from([None, 5, "ab", {"name": "a"}, True, 1.5]))
+    if roll == 1:
+        faults.append("entry_not_mapping")
+        kids = list(kids)
+        kids.insert(draw(st.integers(0, len(kids))), draw(st.sampled_from([None, 5, "x", [1], [], True])))
+    return kids
+
+
+@st.composite
 def dict_section(draw, depth, faults, name=None):
     d = {}
     if name is not None:
@@ -503,9 +519,10 @@ def dict_section(draw, depth, faults, name=None):
         if k.endswith("cardinality"):
             d[k] = draw(_DCARD)
         elif k == "properties":
-            d[k] = draw(st.lists(dict_property(faults), max_size=3))
+            d[k] = draw(_odd_children(st.lists(dict_property(faults), max_size=3), faults))
         elif k == "sections":
-            d[k] = draw(st.lists(dict_section(depth - 1, faults), max_size=3)) if depth > 0 else []
+            d[k] = draw(_odd_children(st.lists(dict_section(depth - 1, faults), max_size=3), faults)) \
+                if depth > 0 else []
         else:
             if k in ("bogus_key", "property"):
                 faults.append("unknown_key")
@@ -537,6 +554,18 @@ def dict_case(draw):
         else:
             secs.append(draw(dict_section(2, faults)))
     docd["sections"] = secs
+    roll = draw(st.integers(0, 24))
+    if roll == 0:
+        faults.append("children_not_list")
+        docd["sections"] = draw(st.sampled_from([None, 5, "ab", {"name": "a"}]))
+        markers = []
+    elif roll == 1:
+        faults.append("entry_not_mapping")
+        secs.insert(draw(st.integers(0, len(secs))), draw(st.sampled_from([None, 5, "x", [1]])))
+    elif roll == 2:
+        faults.append("document_not_mapping")
+        docd = draw(st.sampled_from([None, [], "abc", 5, [docd]]))
+        markers = []
     version = draw(st.sampled_from(["1.1"] * 8 + ["1", "1.0", 1.1, None, "2"]))
     root = {"Document": docd, "odml-version": version}
     if draw(st.integers(0, 15)) == 0:
@@ -567,7 +596,8 @@ def dict_body(case):
                 fh.write(text)
             return ODMLReader(fmt, show_warnings=False).from_file(path)
         res, exc = guarded(call)
-        current = isinstance(data, dict) and data.get("odml-version") == "1.1" and "Document" in data
+        current = isinstance(data, dict) and data.get("odml-version") == "1.1" and \
+            isinstance(data.get("Document"), dict)
         doc = judge(res, exc, "dict reader %s" % entry, fails, lenient_must_succeed=bool(lenient and current),
                     gen="dict", entry=entry, lenient=lenient, faults=case["faults"])
         if doc is not None and lenient and current:
